@@ -9,7 +9,7 @@ import (
 
 // C06: exchanges started by each side never interfere (gateway side).
 //
-// kind1 (client-initiated, message ID m1): 0 = PUBLISH QoS 1, 1 = SUBSCRIBE
+// kind1 (client-initiated, message ID m1): 0 = PUBLISH QoS 1, 1 = SUBSCRIBE, 2 = PUBLISH QoS 2
 // kind2 (broker-initiated, message ID m2): 0 = PUBLISH QoS 1 (short topic),
 //   1 = PUBLISH QoS 2 (short topic), 2 = PUBLISH QoS 1 on a new topic (REGISTER first)
 // order: 0 = the client's exchange starts first, 1 = the broker's
@@ -34,6 +34,10 @@ func VH_C06_gw(kind1, kind2, order int) {
 			s := snPkts1.NewSubscribe("ab/c", 0, false, 1, 0)
 			s.SetMessageID(m1)
 			vAssume(x.feedSN(s) == nil)
+		case 2:
+			p := snPkts1.NewPublish(0x6162, []byte("x"), false, 2, false, snPkts1.TIT_SHORT)
+			p.SetMessageID(m1)
+			vAssume(x.feedSN(p) == nil)
 		}
 		x.mq.take()
 	}
@@ -73,9 +77,13 @@ func VH_C06_gw(kind1, kind2, order int) {
 		a.MessageID = m1
 		a.ReturnCodes = []byte{1}
 		x.feedMQ(a)
+	case 2:
+		a := mqPkts.NewControlPacket(mqPkts.Pubrec).(*mqPkts.PubrecPacket)
+		a.MessageID = m1
+		x.feedMQ(a)
 	}
 	out := x.sn.take()
-	want := []byte{vtPUBACK, vtSUBACK}[kind1]
+	want := []byte{vtPUBACK, vtSUBACK, vtPUBREC}[kind1]
 	ok := false
 	for _, d := range out {
 		r := vParseSN(d)
